@@ -159,6 +159,14 @@ def check_rule(c):
     try:
         # collision forcing: the same labels are first marked under the OTHER preset (result discarded)
         transform.mark_heads_by_rules(build(mt), mark_heads_preset='ptb' if c['preset'] == 'negra' else 'negra')
+        if c.get('pos', 0) % 2 == 0:
+            # ... or, on every other case: under the SAME preset, then a call that is rejected (unknown preset) -
+            # a failed call in the middle of a history must leave nothing behind
+            transform.mark_heads_by_rules(build(mt), mark_heads_preset=c['preset'])
+            try:
+                transform.mark_heads_by_rules(build(mt), mark_heads_preset='no-such-preset')
+            except Exception:
+                pass
         if c.get('via') == 'brackets':
             # as PTB users get their trees: bracketed text read with gf_split
             t = build_via_brackets(mt, scratch(), **cli_options({'gf_split': True}))
